@@ -139,6 +139,9 @@ pub fn apply(ev: &Value) -> Vec<Value> {
     // relabelled replay of a function-level event (see shape::up): the logged event keeps the small ids
     const LIFTABLE: [&str; 8] = ["eval_fn", "partial_fn", "subst_fn", "arith", "fn_info", "ctor", "eval_bound", "content_factor"];
     set_lift(if LIFTABLE.contains(&name) { inp.get("lift").and_then(|m| m.as_str()) } else { None });
+    if LIFTABLE.contains(&name) && inp.get("lift").and_then(|m| m.as_str()) == Some("E") {
+        set_lift_top(max_var_id(inp));
+    }
     let mk = |out: Value| -> Value {
         let mut e = ev.clone();
         e["out"] = out;
